@@ -1,6 +1,264 @@
-/- C05 — statements under construction -/
-import AgpTpf.Model.Text
+/-
+  C05 — AGP and TPF parse/format round-trip without loss.
+
+  Model: Model/Text.lean (`parseAgp`, `parseTpf`, `formatAgp`, `formatTpf`, line readers `parseAgpLine`,
+  `parseTpfLine`), Model/Py.lean (`pyInt` = `int()`, `intToStr` = `str()`, `splitOnChar`, `joinWith`, `rstripBy`).
+  Helper lemmas and the well-formedness predicates live in Proofs/C05*.lean:
+
+    HeaderOk h        non-empty, no newline, and either does not start with '#' / whitespace or is a single such
+                      character — exactly the texts `headerText` (the `[#\s]+(.+)` match) can return,
+                      `header_text_wf`                                                    (C05Header)
+    AgpScafNameOk n   non-empty, no tab, does not start with '#'                          (C05Agp)
+    AgpRowOk r        gap: no tab in the gap type; fragment: no tab in name / tags, the LAST tag ends in a
+                      non-whitespace character (only the last column meets `rstrip()`), start ≤ end,
+                      strand ∈ {0, 1, -1}                                                 (C05Agp)
+    NamesChain [] scs first scaffold name ≠ "", consecutive scaffolds differently named   (C05Fold)
+    WFAgp a           all of the above + no scaffold without rows                        (C05File)
+    TpfScafNameOk n   non-empty, no tab                                                   (C05Tpf)
+    TpfRowOk r        gap: type without upper-case letter / '-' / tab and not "type_2" / "type_3" (`TpfGapType`);
+                      fragment: name non-empty without tab/newline, 0 ≤ start ≤ end, strand ±1 (C05Tpf)
+    WFTpf a           + every scaffold starts with a fragment (`FirstIsFrag`)            (C05TpfFile)
+    NoNewlines a      no '\n' in any name, tag or gap type (needed only to go from the written TEXT back to
+                      the written LINES, `pyLines`)
+    canonAssembly a   `a` as a reader can rebuild it: header + scaffolds (name, rows), object ids 0,1,2,… in file
+                      order (ids model Python object identity, no file carries them)
+    dropTagsAssembly  all fragment tags removed
+
+  Every clause of the WF predicates is NEEDED; the `example`s at the end are concrete failing inputs for each
+  (findings).
+-/
+import AgpTpf.Proofs.C05Compose
 namespace AgpTpf.C05
-open AgpTpf
-theorem joinWith_single (sep : Char) (f : Str) : joinWith sep [f] = f := rfl
+open AgpTpf AgpTpf.C06
+
+/-! ## (a) `int(str(n)) == n` -/
+theorem int_roundtrip (n : Int) : pyInt (intToStr n) = .ok n := pyInt_intToStr n
+
+/-! ## (b) `"\t".join(fields).split("\t") == fields`, and `"\t".join(s.split("\t")) == s` for every text -/
+theorem split_join (sep : Char) (fields : List Str) (hne : fields ≠ []) (h : ∀ f ∈ fields, sep ∉ f) :
+    splitOnChar sep (joinWith sep fields) = fields := splitOnChar_joinWith sep fields hne h
+theorem join_split (sep : Char) (s : Str) : joinWith sep (splitOnChar sep s) = s := joinWith_splitOnChar sep s
+
+example : (["a".toList, [], "b c".toList] : List Str) ≠ [] ∧ ∀ f ∈ ["a".toList, [], "b c".toList], '\t' ∉ f := by decide
+
+/-! ## (c) gap-type and strand tables -/
+theorem tpf_gap_type_roundtrip (g : Str) (h : TpfGapType g) : tpfGapTypeOfText (tpfGapTypeToText g) = g :=
+  tpfGapType_roundtrip g h
+theorem tpf_gap_text_roundtrip (t : Str) (h : TpfGapText t) : tpfGapTypeToText (tpfGapTypeOfText t) = t :=
+  tpfGapText_roundtrip t h
+theorem tpf_gap_type_dictionary :
+    tpfGapTypeToText "scaffold".toList = "TYPE-2".toList ∧ tpfGapTypeOfText "TYPE-2".toList = "scaffold".toList ∧
+    tpfGapTypeToText "contig".toList = "TYPE-3".toList ∧ tpfGapTypeOfText "TYPE-3".toList = "contig".toList ∧
+    tpfGapTypeToText "short_arm".toList = "SHORT-ARM".toList ∧ tpfGapTypeOfText "SHORT-ARM".toList = "short_arm".toList := by
+  decide
+example : TpfGapType "scaffold".toList ∧ TpfGapType "short_arm".toList ∧ TpfGapText "TYPE-2".toList ∧
+    TpfGapText "SHORT-ARM".toList := by decide
+
+theorem agp_strand_roundtrip (s : Int) (h : s = 0 ∨ s = 1 ∨ s = -1) :
+    ∃ t, strandStr Gen.agpStrandStr s = .ok t ∧ lookupStr Gen.agpStrandDict t = .ok s := by
+  obtain ⟨t, h1, h2, _⟩ := agpStrand_roundtrip s h; exact ⟨t, h1, h2⟩
+theorem tpf_strand_roundtrip (s : Int) (h : s = 1 ∨ s = -1) :
+    ∃ t, strandStr Gen.tpfStrandStr s = .ok t ∧ lookupStr Gen.tpfStrandDict t = .ok s := by
+  obtain ⟨t, h1, h2, _⟩ := tpfStrand_roundtrip s h; exact ⟨t, h1, h2⟩
+
+/-! ## (d) the TPF fragment name pattern: the LAST colon separates name and coordinates -/
+theorem tpf_name_match (name : Str) (s e : Nat) (hn : name ≠ []) (hnl : '\n' ∉ name) :
+    tpfNameMatch (name ++ [':'] ++ natToStr s ++ ['-'] ++ natToStr e) = some (name, natToStr s, natToStr e) :=
+  tpfNameMatch_format name s e hn hnl
+example : tpfNameMatch "a:1-2:b-c:10-20".toList = some ("a:1-2:b-c".toList, "10".toList, "20".toList) := by decide
+
+/-! ## (e) line level -/
+
+/-- the AGP reader's column split recovers exactly the written columns (this ties C06's column lists to the text) -/
+theorem agp_line_columns (cols : List Str) (htab : ∀ c ∈ cols, '\t' ∉ c) (l : Str)
+    (hl : cols.getLast? = some l) (hend : endsNonSpace l = true) :
+    splitOnChar '\t' (rstripBy isSpace (lineOfCols cols)) = cols := agp_line_cols cols htab l hl hend
+
+/-- an AGP line written for `row` (at any running position / part number) is read back as exactly that row,
+    appended to scaffold `name` (opened if `name` differs from the current scaffold's). -/
+theorem agp_line_parses_row (st : ParseState) (name : Str) (p i : Int) (row : Row) (cols : List Str)
+    (hn : AgpScafNameOk name) (hr : AgpRowOk row) (hc : agpRowCols name p i row = .ok cols) :
+    parseAgpLine st (lineOfCols cols) = addRowOid (st.switchScaffold name) row :=
+  parseAgpLine_row st name p i row cols hn hr hc
+
+theorem tpf_line_parses_gap (st : ParseState) (scName : Str) (g : Gap) (line : Str)
+    (hr : TpfRowOk (.gap g)) (hh : st.haveScaffold = true) (hl : formatTpfRow scName (.gap g) = .ok line) :
+    parseTpfLine st line = addRowOid st (.gap g) := parseTpfLine_gap st scName g line hr hh hl
+
+theorem tpf_line_parses_frag (st : ParseState) (scName : Str) (f : Fragment) (line : Str)
+    (hn : TpfScafNameOk scName) (hr : TpfRowOk (.frag f)) (hl : formatTpfRow scName (.frag f) = .ok line) :
+    parseTpfLine st line = addRowOid (st.switchScaffold scName) (.frag { f with tags := [] }) :=
+  parseTpfLine_frag st scName f line hn hr hl
+
+/-- ANY line (well-formed or corrupted): blank and `#` lines leave the rows untouched, every other line raises
+    or adds exactly one row, all earlier scaffolds and rows unchanged (`OneRowAdded`). -/
+theorem agp_line_one_row_or_error' (st : ParseState) (line : Str) (st' : ParseState)
+    (h : parseAgpLine st line = .ok st') :
+    (isBlankLine line = true ∨ startsWith ['#'] line = true →
+        st'.scaffolds = st.scaffolds ∧ st'.currentName = st.currentName ∧ st'.nextOid = st.nextOid) ∧
+    (¬ (isBlankLine line = true ∨ startsWith ['#'] line = true) →
+        OneRowAdded st st' ∧ totalRows st' = totalRows st + 1 ∧ st'.header = st.header) :=
+  agp_line_one_row_or_error st line st' h
+
+theorem tpf_line_one_row_or_error' (st : ParseState) (line : Str) (st' : ParseState)
+    (h : parseTpfLine st line = .ok st') :
+    (isBlankLine line = true ∨ startsWith ['#'] line = true →
+        st'.scaffolds = st.scaffolds ∧ st'.currentName = st.currentName ∧ st'.nextOid = st.nextOid) ∧
+    (¬ (isBlankLine line = true ∨ startsWith ['#'] line = true) →
+        OneRowAdded st st' ∧ totalRows st' = totalRows st + 1 ∧ st'.header = st.header) :=
+  tpf_line_one_row_or_error st line st' h
+
+/-- corrupted lines are errors, not skipped: missing columns, bad strand, bad coordinate -/
+example : parseAgpLine {} "s\t1\t5\t1\tW\tc\t5\n".toList = .error .index := by rfl
+example : parseAgpLine {} "s\t1\t5\t1\tW\tc\t5\t9\tx\n".toList = .error .key := by rfl
+example : parseAgpLine {} "s\t1\t5\t1\tW\tc\t5\t9x\t+\n".toList = .error .value := by rfl
+example : parseAgpLine {} "s\t1\t5\t1\tW\tc\t9\t5\t+\n".toList = .error .value := by rfl
+example : parseTpfLine {} "?\tc:5-9\ts\n".toList = .error .value := by rfl
+example : parseTpfLine {} "?\tc:5-9\ts\tUNKNOWN\n".toList = .error .key := by rfl
+example : parseTpfLine {} "?\tc:5_9\ts\tPLUS\n".toList = .error .value := by rfl
+
+example : AgpScafNameOk "scaffold_1".toList ∧
+    AgpRowOk (.frag { name := "ctg:1".toList, start := 5, stop := 9, strand := -1, tags := ["a b".toList, "c".toList] }) ∧
+    AgpRowOk (.gap { length := 200, gapType := "scaffold".toList }) ∧
+    TpfScafNameOk "#odd name".toList ∧
+    TpfRowOk (.frag { name := "ctg:1-2".toList, start := 0, stop := 9, strand := -1, tags := ["lost".toList] }) ∧
+    TpfRowOk (.gap { length := 200, gapType := "short_arm".toList }) := by decide
+example : ∃ cols, agpRowCols "s".toList 5 1 (.frag { name := "c".toList, start := 5, stop := 9, strand := -1 }) = .ok cols :=
+  ⟨_, rfl⟩
+
+/-! ## (f) whole assemblies -/
+
+/-- header lines: whatever the readers can put into `asm.header` is `HeaderOk`, and `HeaderOk` lines survive
+    both writers (`# …` for AGP, `## …` for TPF) -/
+theorem header_text_wf (l h : Str) (hh : headerText l = some h) : HeaderOk h := headerText_ok l h hh
+theorem agp_header_line (st : ParseState) (h : Str) (hh : HeaderOk h) :
+    parseAgpLine st (Gen.agpHeaderPrefix ++ h ++ ['\n']) = .ok { st with header := st.header ++ [h] } :=
+  parseAgpLine_header st h hh
+theorem tpf_header_line (st : ParseState) (h : Str) (hh : HeaderOk h) :
+    parseTpfLine st (Gen.tpfHeaderPrefix ++ h ++ ['\n']) = .ok { st with header := st.header ++ [h] } :=
+  parseTpfLine_header st h hh
+example : HeaderOk "DESCRIPTION: x  ".toList ∧ HeaderOk "#".toList ∧ HeaderOk " ".toList := by decide
+
+/-- AGP: format, then parse: the same header lines, scaffolds, rows, coordinates, strands, tags, gap lengths and
+    gap types (everything but Python object identity, `canonAssembly`). -/
+theorem agp_roundtrip (a : Assembly) (h : WFAgp a) :
+    ∃ lines, formatAgp a = .ok lines ∧ parseAgp lines = .ok (canonAssembly a) := agp_roundtrip_lines a h
+
+/-- …and the written TEXT, split into lines the way file iteration does, is those lines. -/
+theorem agp_roundtrip_text' (a : Assembly) (h : WFAgp a) (hnl : NoNewlines a) :
+    ∃ lines, formatAgp a = .ok lines ∧ pyLines lines.flatten = lines ∧
+      parseAgp (pyLines lines.flatten) = .ok (canonAssembly a) := agp_roundtrip_text a h hnl
+
+/-- an assembly already in reader form comes back identical -/
+theorem agp_roundtrip_eq (a : Assembly) (h : WFAgp a) (hc : canonAssembly a = a) :
+    ∃ lines, formatAgp a = .ok lines ∧ parseAgp lines = .ok a := by
+  obtain ⟨lines, h1, h2⟩ := agp_roundtrip_lines a h; exact ⟨lines, h1, by rw [h2, hc]⟩
+
+/-- re-formatting the parsed written AGP reproduces it byte for byte -/
+theorem agp_format_parse_format (a : Assembly) (h : WFAgp a) :
+    ∃ lines a', formatAgp a = .ok lines ∧ parseAgp lines = .ok a' ∧ formatAgp a' = .ok lines := by
+  obtain ⟨lines, h1, h2⟩ := agp_roundtrip_lines a h
+  exact ⟨lines, _, h1, h2, by rw [formatAgp_canon]; exact h1⟩
+
+/-- TPF: format, then parse: everything but the tags. -/
+theorem tpf_roundtrip (a : Assembly) (h : WFTpf a) :
+    ∃ lines, formatTpf a = .ok lines ∧ parseTpf lines = .ok (canonAssembly (dropTagsAssembly a)) :=
+  tpf_roundtrip_lines a h
+
+theorem tpf_roundtrip_text' (a : Assembly) (h : WFTpf a) (hnl : NoNewlines a) :
+    ∃ lines, formatTpf a = .ok lines ∧ pyLines lines.flatten = lines ∧
+      parseTpf (pyLines lines.flatten) = .ok (canonAssembly (dropTagsAssembly a)) := tpf_roundtrip_text a h hnl
+
+theorem tpf_format_parse_format (a : Assembly) (h : WFTpf a) :
+    ∃ lines a', formatTpf a = .ok lines ∧ parseTpf lines = .ok a' ∧ formatTpf a' = .ok lines := by
+  obtain ⟨lines, h1, h2⟩ := tpf_roundtrip_lines a h
+  exact ⟨lines, _, h1, h2, by rw [formatTpf_canon, formatTpf_dropTags]; exact h1⟩
+
+/-- AGP → TPF → AGP changes nothing except dropping the tags. -/
+theorem agp_to_tpf_and_back (a : Assembly) (h1 : WFAgp a) (h2 : WFTpf a) :
+    ∃ agp1 a1 tpf a2 agp2,
+      formatAgp a = .ok agp1 ∧ parseAgp agp1 = .ok a1 ∧ a1 = canonAssembly a ∧
+      formatTpf a1 = .ok tpf ∧ parseTpf tpf = .ok a2 ∧ a2 = canonAssembly (dropTagsAssembly a) ∧
+      formatAgp a2 = .ok agp2 ∧ parseAgp agp2 = .ok a2 ∧
+      formatAgp (dropTagsAssembly a) = .ok agp2 := agp_tpf_agp a h1 h2
+
+/-! ## the hypotheses are satisfiable: two scaffolds, a gap, a minus strand, tags, a header, 10^12 coordinates -/
+def demo : Assembly :=
+  { header := ["DESCRIPTION: test".toList],
+    scaffolds := [
+      { name := "scaffold_1".toList,
+        rows := [.frag { oid := 0, name := "ctg:1-5".toList, start := 1, stop := 1000000000000, strand := 1,
+                         tags := ["Painted".toList, "X".toList] },
+                 .gap { length := 200, gapType := "scaffold".toList },
+                 .frag { oid := 1, name := "ctg 2".toList, start := 5, stop := 9, strand := -1 }] },
+      { name := "scaffold_2".toList,
+        rows := [.frag { oid := 2, name := "ctg3".toList, start := 0, stop := 20, strand := 1, tags := ["Hap2".toList] },
+                 .gap { length := 10, gapType := "short_arm".toList }] }] }
+
+example : WFAgp demo := by decide
+example : WFTpf demo := by decide
+example : NoNewlines demo := by decide
+example : canonAssembly demo = demo := by decide
+/-- strand `?` (0) is fine for AGP -/
+example : WFAgp { scaffolds := [{ name := "s".toList, rows := [.frag { name := "c".toList, start := 1, stop := 2, strand := 0 }] }] } := by
+  decide
+
+/-! ## Findings: each WF clause is needed (concrete inputs that do NOT round trip) -/
+
+/-- AGP, two consecutive scaffolds with the same name are MERGED by the reader -/
+example : ∃ lines, formatAgp { scaffolds := [{ name := "s".toList, rows := [.gap { length := 1, gapType := "x".toList }] },
+                                            { name := "s".toList, rows := [.gap { length := 2, gapType := "x".toList }] }] } = .ok lines ∧
+    parseAgp lines = .ok { scaffolds := [{ name := "s".toList, rows := [.gap { length := 1, gapType := "x".toList },
+                                                                          .gap { length := 2, gapType := "x".toList }] }] } :=
+  ⟨_, rfl, rfl⟩
+
+/-- AGP, a scaffold whose name starts with '#': its lines are read as comments, the scaffold silently vanishes
+    (and its lines turn up as header text) -/
+example : ∃ lines a', formatAgp { scaffolds := [{ name := "#s".toList, rows := [.gap { length := 1, gapType := "x".toList }] }] } = .ok lines ∧
+    parseAgp lines = .ok a' ∧ a'.scaffolds = [] ∧ a'.header ≠ [] :=
+  ⟨_, _, rfl, rfl, rfl, by decide⟩
+
+/-- AGP, a last tag ending in whitespace (or empty) is stripped by `rstrip()` -/
+example : ∃ lines, formatAgp { scaffolds := [{ name := "s".toList, rows := [.frag { name := "c".toList, start := 1, stop := 2, strand := 1, tags := ["t ".toList] }] }] } = .ok lines ∧
+    parseAgp lines = .ok { scaffolds := [{ name := "s".toList, rows := [.frag { name := "c".toList, start := 1, stop := 2, strand := 1, tags := ["t".toList] }] }] } :=
+  ⟨_, rfl, rfl⟩
+example : ∃ lines, formatAgp { scaffolds := [{ name := "s".toList, rows := [.frag { name := "c".toList, start := 1, stop := 2, strand := 1, tags := [[]] }] }] } = .ok lines ∧
+    parseAgp lines = .ok { scaffolds := [{ name := "s".toList, rows := [.frag { name := "c".toList, start := 1, stop := 2, strand := 1, tags := [] }] }] } :=
+  ⟨_, rfl, rfl⟩
+
+/-- AGP, an empty first scaffold name: AttributeError (`scaffold` is still `None`) -/
+example : ∃ lines, formatAgp { scaffolds := [{ name := [], rows := [.gap { length := 1, gapType := "x".toList }] }] } = .ok lines ∧
+    parseAgp lines = .error .attribute := ⟨_, rfl, rfl⟩
+
+/-- AGP, an empty header line comes back as " "; a header starting with '#' loses the '#' -/
+example : ∃ lines a', formatAgp { header := [[]] } = .ok lines ∧ parseAgp lines = .ok a' ∧ a'.header = [" ".toList] :=
+  ⟨_, _, rfl, rfl, rfl⟩
+example : ∃ lines a', formatAgp { header := ["#x".toList] } = .ok lines ∧ parseAgp lines = .ok a' ∧ a'.header = ["x".toList] :=
+  ⟨_, _, rfl, rfl, rfl⟩
+
+/-- TPF, a scaffold that starts with a gap: the gap is re-homed to the previous scaffold … -/
+example : ∃ lines, formatTpf { scaffolds := [{ name := "s1".toList, rows := [.frag { name := "c".toList, start := 1, stop := 2, strand := 1 }] },
+                                            { name := "s2".toList, rows := [.gap { length := 7, gapType := "scaffold".toList },
+                                                                            .frag { name := "d".toList, start := 1, stop := 2, strand := 1 }] }] } = .ok lines ∧
+    parseTpf lines = .ok { scaffolds := [{ name := "s1".toList, rows := [.frag { oid := 0, name := "c".toList, start := 1, stop := 2, strand := 1 },
+                                                                          .gap { length := 7, gapType := "scaffold".toList }] },
+                                          { name := "s2".toList, rows := [.frag { oid := 1, name := "d".toList, start := 1, stop := 2, strand := 1 }] }] } :=
+  ⟨_, rfl, rfl⟩
+/-- … or is an error when it is the first line -/
+example : ∃ lines, formatTpf { scaffolds := [{ name := "s".toList, rows := [.gap { length := 7, gapType := "scaffold".toList }] }] } = .ok lines ∧
+    parseTpf lines = .error .value := ⟨_, rfl, rfl⟩
+
+/-- TPF, strand 0 is written as UNKNOWN, which the TPF reader rejects (KeyError) -/
+example : ∃ lines, formatTpf { scaffolds := [{ name := "s".toList, rows := [.frag { name := "c".toList, start := 1, stop := 2, strand := 0 }] }] } = .ok lines ∧
+    parseTpf lines = .error .key := ⟨_, rfl, rfl⟩
+
+/-- TPF, gap types "type_2"/"type_3" come back as "scaffold"/"contig"; upper case / '-' come back lower-cased / '_' -/
+example : tpfGapTypeOfText (tpfGapTypeToText "type_2".toList) = "scaffold".toList ∧
+    tpfGapTypeOfText (tpfGapTypeToText "type_3".toList) = "contig".toList ∧
+    tpfGapTypeOfText (tpfGapTypeToText "Short-Arm".toList) = "short_arm".toList := by decide
+
+/-- TPF, a negative start is not `\d+`: ValueError -/
+example : ∃ lines, formatTpf { scaffolds := [{ name := "s".toList, rows := [.frag { name := "c".toList, start := -1, stop := 2, strand := 1 }] }] } = .ok lines ∧
+    parseTpf lines = .error .value := ⟨_, rfl, rfl⟩
+
 end AgpTpf.C05
